@@ -182,11 +182,14 @@ def run(pid: str, tier: str, check, level: str, replay: str | None = None) -> in
     for f, k in listed:
         print(f"KNOWN-FINDING: property={pid} {f.rule} {f.key}: {f.message}")
     rc = 0
-    if status != "ok":
+    if status != "ok" and not new:
         print(f"ANALYSIS-ERROR property={pid}: {err}")
         rc = 2
+    elif status != "ok":
+        # definite findings were made before the analysis had to give up: they stand, the rest is undecided
+        print(f"[{pid}] analysis incomplete after the violations below: {err}")
     replay_paths = []
-    if status == "ok":
+    if status == "ok" or new:
         for f, _ in new:
             p = _write_replay(pid, f)
             replay_paths.append(p)
